@@ -46,6 +46,10 @@ def showKind : EvKind → String
   | .started => "started" | .ongoing => "ongoing" | .fired => "fired"
   | .canceled => "canceled" | .completed => "completed"
 
+def parseKind? : String → Option EvKind
+  | "started" => some .started | "ongoing" => some .ongoing | "fired" => some .fired
+  | "canceled" => some .canceled | "completed" => some .completed | _ => none
+
 def parseDim? : String → Option Dim
   | "0" => some .bool | "1" => some .a1 | "2" => some .a2 | "3" => some .a3 | _ => none
 
@@ -238,7 +242,7 @@ inductive Cmd where
   | key (k : Nat) (on : Bool) | mb (b : Nat) (on : Bool) | motion (x y : Rat) | wheel (x y : Rat)
   | padAdd (g : Nat) | padDel (g : Nat) | padBtn (g b : Nat) (on : Bool) | padAxis (g x : Nat) (q : Rat)
   | ui (u : Nat) (st : Option Bool) | dt (q : Rat) | speed (q : Rat) | pause (b : Bool) | inject
-  | react (f k : Nat) (o : Op) | post (o : Op) | frame | op (o : Op)
+  | react (f k : Nat) (o : Op) | reactEv (f e a : Nat) (kind : EvKind) (o : Op) | post (o : Op) | frame | op (o : Op)
   | route (r : Nat) | emod (id : Nat) (m : ModSpec) | econd (id : Nat) (c : CondSpec)
   | presetCardinal (n e s w : FieldSpec) | presetBidir (p n : FieldSpec) | presetStick (right : Bool)
   | uConvert (v : Value) (d : Dim) | uAsBool (v : Value) | uActuated (v : Value) (q : Rat)
@@ -307,6 +311,12 @@ def parseCmd? : List String → Option Cmd
     match o with
     | .spawn _ => none
     | _ => some (.react (← f.toNat?) (← k.toNat?) o)
+  | "reactev" :: f :: e :: a :: kind :: op => do
+    let o ← parseOp? op
+    let a ← a.toNat?
+    match o with
+    | .spawn _ => none
+    | _ => if a < 32 then some (.reactEv (← f.toNat?) (← e.toNat?) a (← parseKind? kind) o) else none
   | "post" :: op => do
     let o ← parseOp? op
     match o with
